@@ -10,9 +10,16 @@
   The clause about MEMORY ("a clone shares no memory with the original: mutating either
   leaves the other unchanged") is stated over the heap model `Orb.Heap` (slice headers into a
   store of backing arrays) in the second half of this file, for an arbitrary coordinate type.
+
+  NIL MEMBERS (nil rings / lines / polygons, typed nil and nil-interface members of collections)
+  are the subject of the third part, over the model `Orb.CoreNil`: there `cloneN`, `equalN`, `boundN`
+  follow the nil tests of the code, extend the `Orb.Core` functions (`equalN_extends`,
+  `boundN_extends`), and "a clone is equal to the original" is stated for them (`clone_preserves`,
+  `clone_equal`).  `orb.Round` is in OrbProofs/C06Round.lean.
 -/
 import OrbProofs.C06Lemmas
 import OrbProofs.C06HeapLemmas
+import OrbProofs.C06Nil
 
 namespace Orb.Core
 
@@ -85,8 +92,10 @@ theorem equalV_symm (a b : GVal α) (h : equalV a b = true) : equalV b a = true 
 theorem equalV_trans (a b c : GVal α) (h1 : equalV a b = true) (h2 : equalV b c = true) : equalV a c = true :=
   (equalV_iff a c).2 (((equalV_iff a b).1 h1).trans ((equalV_iff b c).1 h2))
 
-/-- A clone is equal to the original (typed nil slices and the nil interface included). -/
-theorem clone_equal (v : GVal α) : equalV v (cloneV v) = true := clone_equal' v
+/- "A clone is equal to the original": `Orb.Core.cloneV` is the identity BY DEFINITION, so at this level
+   the clause is `equalV_refl` and is not restated under another name.  Its content is
+   `Orb.CoreNil.clone_preserves` / `clone_equal` below (the clone function there is a recursion that
+   follows the per-type `Clone` methods and their nil tests) and `Orb.Heap.clone_equal_denote`. -/
 
 end equality
 
@@ -110,6 +119,111 @@ example : (⟨⟨0, 0⟩, ⟨2, 2⟩⟩ : Bound Int).isEmpty = false ∧ (⟨⟨
     orientation ([⟨0, 0⟩, ⟨1, 0⟩, ⟨1, 1⟩, ⟨0, 0⟩] : List (Pt Int)) = 1 := by decide
 
 end Orb.Core
+
+/-! ## Values with nil members
+
+`NGeom` keeps nil-ness at every level: `Polygon{nil}` is `.polygon (some [none])`,
+`Collection{MultiPoint(nil), nil}` is `.collection [.multiPoint none, .nilIface]`. -/
+namespace Orb.CoreNil
+open Orb Orb.Core
+
+variable {α : Type}
+
+/-- `orb.Clone` returns a value of the same kind, nesting, lengths, coordinates AND nil-ness: a clone of
+    a nil ring / line / polygon is nil, a clone of a typed nil member is that typed nil, a clone of a
+    nil-interface member is the nil interface, a clone of an empty slice is an (empty, non-nil) slice. -/
+theorem clone_preserves (g : NGeom α) : cloneN g = g := cloneN_eq' g
+
+/-- … spelled out on the members the nil tests of `Ring.Clone`, `Polygon.Clone`, `orb.Clone` exist for -/
+theorem clone_nil_members (p : Pt α) :
+    cloneN (.polygon (some [none, some [p]])) = .polygon (some [none, some [p]]) ∧
+    cloneN (.multiPolygon (some [none, some [none]])) = (.multiPolygon (some [none, some [none]]) : NGeom α) ∧
+    cloneN (.collection [.nilIface, .multiPoint none, .nilCollection, .collection [.nilIface]]) =
+      (.collection [.nilIface, .multiPoint none, .nilCollection, .collection [.nilIface]] : NGeom α) ∧
+    cloneN (.multiPoint (some [])) = (.multiPoint (some []) : NGeom α) :=
+  ⟨clone_preserves _, clone_preserves _, clone_preserves _, clone_preserves _⟩
+
+section equality
+variable [BEq α] [LawfulBEq α]
+
+/-- `Equal` holds exactly when the two values agree after every nil SLICE is read as the empty slice
+    of its type: kind, nesting, lengths and every coordinate.  The nil INTERFACE (top level or member
+    of a collection) is equal to the nil interface only. -/
+theorem equalN_iff (g h : NGeom α) : equalN g h = true ↔ normN g = normN h := equalN_iff' g h
+
+theorem equalN_refl (g : NGeom α) : equalN g g = true := (equalN_iff g g).2 rfl
+theorem equalN_symm (g h : NGeom α) (e : equalN g h = true) : equalN h g = true :=
+  (equalN_iff h g).2 ((equalN_iff g h).1 e).symm
+theorem equalN_trans (a b c : NGeom α) (h1 : equalN a b = true) (h2 : equalN b c = true) : equalN a c = true :=
+  (equalN_iff a c).2 (((equalN_iff a b).1 h1).trans ((equalN_iff b c).1 h2))
+
+/-- A clone is equal to the original — nil members of every sort included. -/
+theorem clone_equal (g : NGeom α) : equalN g (cloneN g) = true := by
+  rw [clone_preserves]; exact equalN_refl g
+
+end equality
+
+/-- On values without nil members (and on the top-level nil values of `GVal`) `equalN` IS `Core.equalV`. -/
+theorem equalN_extends [BEq α] (a b : GVal α) : equalN (ofGVal a) (ofGVal b) = equalV a b := equalN_ofGVal' a b
+
+section bounds
+variable [LinearOrder α]
+
+/-- `Bound()` reads nil slices as empty and `Collection.Bound` skips nil-interface members: the bound is
+    the `Core.bound` of the value with those removed (`strip`). -/
+theorem boundN_strip (eb : Bound α) (g : NGeom α) (g' : Geom α) (h : strip g = some g') :
+    boundN eb g = bound eb g' := boundN_strip' eb g g' h
+
+omit [LinearOrder α] in
+/-- every value but the nil interface has such a reading … -/
+theorem strip_isSome (g : NGeom α) (h : g ≠ .nilIface) : (strip g).isSome = true := by
+  cases hs : strip g with
+  | none => exact absurd ((strip_eq_none_iff g).1 hs) h
+  | some _ => rfl
+
+omit [LinearOrder α] in
+/-- … which drops exactly the nil-interface members -/
+theorem strip_collection (gs : List (NGeom α)) :
+    strip (.collection gs) = some (.collection (gs.filterMap strip)) := by
+  rw [strip, stripList_eq_filterMap]
+
+/-- On values without nil members `boundN` IS `Core.bound`. -/
+theorem boundN_extends (eb : Bound α) (g : Geom α) : boundN eb (ofGeom g) = bound eb g :=
+  boundN_strip eb _ g (strip_ofGeom' g)
+
+/-- The bound is the smallest box containing every vertex (outer rings for polygons) of the non-nil
+    members, at every nesting depth … -/
+theorem boundN_tight (eb : Bound α) (he : eb.isEmpty = true) (g : NGeom α) (g' : Geom α) (hs : strip g = some g')
+    (hw : BoundsWF g') (hv : bverts g' ≠ []) : IsTight (bverts g') (boundN eb g) := by
+  rw [boundN_strip eb g g' hs]; exact bound_tight eb he g' hw hv
+
+/-- … and it is empty exactly when there are none (`Collection{nil}`, `Collection{nil, Polygon{nil}}`, …). -/
+theorem boundN_empty_iff (eb : Bound α) (he : eb.isEmpty = true) (g : NGeom α) (g' : Geom α) (hs : strip g = some g')
+    (hw : BoundsWF g') : (boundN eb g).isEmpty = true ↔ bverts g' = [] := by
+  rw [boundN_strip eb g g' hs]; exact bound_empty_iff eb he g' hw
+
+end bounds
+
+/-- Non-vacuity: nil slices against empty ones (equal), the nil interface against an empty collection
+    (not equal), and the bound of a collection whose first, middle and last members are nil. -/
+example :
+    equalN (.polygon (some [none]) : NGeom Int) (.polygon (some [some []])) = true ∧
+    equalN (.nilCollection : NGeom Int) (.collection []) = true ∧
+    equalN (.collection [.nilIface] : NGeom Int) (.collection [.nilCollection]) = false ∧
+    equalN (.collection [.nilIface] : NGeom Int) (.collection [.nilIface]) = true ∧
+    boundN ⟨⟨1, 1⟩, ⟨-1, -1⟩⟩ (.collection [.nilIface, .point ⟨3, 4⟩, .nilIface, .polygon (some [none]),
+      .lineString (some [⟨0, 9⟩]), .nilIface] : NGeom Int) = ⟨⟨0, 4⟩, ⟨3, 9⟩⟩ ∧
+    boundN ⟨⟨1, 1⟩, ⟨-1, -1⟩⟩ (.collection [.nilIface, .nilIface] : NGeom Int) = ⟨⟨1, 1⟩, ⟨-1, -1⟩⟩ := by
+  refine ⟨?_, ?_, ?_, ?_, ?_, ?_⟩
+  · simp [equalN, ptssEqN, ptssEqL, ptsEqN, ptsOf, ptsEq]
+  · simp [equalN, equalNList]
+  · simp [equalN, equalNList]
+  · simp [equalN, equalNList]
+  · simp [boundN, boundStart, boundRest, polygonBound, multiPointBound, ptssOf, ptsOf]
+    decide
+  · simp [boundN, boundStart]
+
+end Orb.CoreNil
 
 /-! ## Heap level: a clone shares no memory with the original
 
